@@ -11,19 +11,50 @@ package main
 // is not a proof of race freedom, and nothing here is about the Go memory model.
 
 import (
+	"context"
 	"fmt"
 	"os"
 	"os/exec"
 	"path/filepath"
 	"strings"
+	"time"
 )
+
+// c20raceModfile: `./check` builds the harness against a scratch tree (VERIF_REPO) with
+// `-modfile=.bin/alt-<id>.mod` and names the binary ctyharness-<id>; the race worker
+// must be built against the same tree.
+func c20raceModfile() []string {
+	exe, err := os.Executable()
+	if err != nil {
+		return nil
+	}
+	base := filepath.Base(exe)
+	if !strings.HasPrefix(base, "ctyharness-") {
+		return nil
+	}
+	alt := filepath.Join(filepath.Dir(exe), "alt-"+strings.TrimPrefix(base, "ctyharness-")+".mod")
+	if _, err := os.Stat(alt); err != nil {
+		return nil
+	}
+	return []string{"-modfile=" + alt}
+}
 
 func c20race(ctx *Ctx) {
 	bin := filepath.Join(os.TempDir(), fmt.Sprintf("c20racew-%d", os.Getpid()))
 	defer os.Remove(bin)
-	build := exec.Command("go", "build", "-race", "-tags", "verif", "-o", bin, "./c20racew")
+	args := append([]string{"build", "-race", "-tags", "verif"}, c20raceModfile()...)
+	args = append(args, "-o", bin, "./c20racew")
+	// quick tier: only when the race-instrumented packages are in the build cache (a cold
+	// build takes longer than the whole quick budget); thorough: always
+	bctx, cancel := context.WithTimeout(context.Background(), time.Duration(ctx.N(15, 900))*time.Second)
+	defer cancel()
+	build := exec.CommandContext(bctx, "go", args...)
 	build.Env = append(os.Environ(), "CGO_ENABLED=1")
 	if out, err := build.CombinedOutput(); err != nil {
+		if !ctx.Thorough && bctx.Err() != nil {
+			ctx.Tag("race:quick-skipped-cold-build-cache")
+			return
+		}
 		ctx.Probe("race-worker-builds", false, "go build -race failed: "+err.Error()+": "+string(out))
 		return
 	}
@@ -40,10 +71,14 @@ func c20race(ctx *Ctx) {
 		ctx.Probe("race-detector-reports-concurrent-ValueSet.Add", code == 66 || strings.Contains(string(out), "DATA RACE") || strings.Contains(string(out), "concurrent map"),
 			fmt.Sprintf("exit code %d, output %.300q", code, string(out)))
 	}
-	for _, g := range []int{2, 3, 4, 8, 16} {
-		for rep := 0; rep < 3; rep++ {
+	gs, reps, iters := []int{2, 3, 4, 8, 16}, 3, 6000
+	if !ctx.Thorough {
+		gs, reps, iters = []int{2, 8}, 1, 1500
+	}
+	for _, g := range gs {
+		for rep := 0; rep < reps; rep++ {
 			seed := ctx.Seed*100 + int64(g)*10 + int64(rep)
-			cmd := exec.Command(bin, fmt.Sprint(seed), fmt.Sprint(g), fmt.Sprint(6000))
+			cmd := exec.Command(bin, fmt.Sprint(seed), fmt.Sprint(g), fmt.Sprint(iters))
 			cmd.Env = append(os.Environ(), "GORACE=halt_on_error=1 exitcode=66")
 			out, err := cmd.CombinedOutput()
 			text := string(out)
@@ -52,9 +87,10 @@ func c20race(ctx *Ctx) {
 			ctx.Tag(fmt.Sprintf("race:goroutines=%d", g))
 			for _, line := range strings.Split(text, "\n") {
 				if strings.HasPrefix(line, "CALLS ") {
-					var n int
-					fmt.Sscanf(line, "CALLS %d", &n)
+					var n, p int
+					fmt.Sscanf(line, "CALLS %d PANICS %d", &n, &p)
 					ctx.res.Dist["race:concurrent-calls"] += n
+					ctx.res.Dist["race:concurrent-calls-that-panic-by-contract"] += p
 				}
 			}
 			if err == nil {
@@ -64,7 +100,7 @@ func c20race(ctx *Ctx) {
 			if ee, ok := err.(*exec.ExitError); ok {
 				code = ee.ExitCode()
 			}
-			f := Failure{Site: "race-worker", Input: key, GoLit: fmt.Sprintf("cd harness && go build -race -tags verif -o w ./c20racew && GORACE=halt_on_error=1 ./w %d %d 6000", seed, g)}
+			f := Failure{Site: "race-worker", Input: key, GoLit: fmt.Sprintf("cd harness && go build -race -tags verif -o w ./c20racew && GORACE=halt_on_error=1 ./w %d %d %d", seed, g, iters)}
 			switch {
 			case code == 66 || strings.Contains(text, "DATA RACE"):
 				f.Sig, f.What = "data-race", "the race detector reported a data race between goroutines that only read shared values"
